@@ -52,6 +52,10 @@ def _work(args):
     (d, ext, main_bytes, bak_bytes, mclass, bclass, entry, trees) = args
     os.makedirs(d, exist_ok=True)
     path = os.path.join(d, "state." + ext)
+    if (len(main_bytes or b"") + len(bak_bytes or b"")) % 2:
+        # the persistence file configured as a bare file name in the working directory (the library's default is one)
+        os.chdir(d)
+        path = "state." + ext
     for p in (path, path + ".bak"):
         if os.path.exists(p):
             os.remove(p)
